@@ -13,4 +13,35 @@ PROPS = {
     },
 }
 
+
+_T = "Trusted: Coq kernel + vm_compute, the hand-written model (tied by correspondence, not derived from source), Go harness/emitter."
+PROPS["C01"] = {
+    "parts": [ENGINE],
+    "level_text": "Theorem C01_lifecycle: for every oracle (all user code / outcome scripts), every table of full user nodes and flows of any nesting, every budget and fuel, the trace appended by run is accepted by the lifecycle monitor (prep once with the run's store; exec attempts with exactly prep's value; fallback only after N failures; post iff the exec phase produced a result, with store, prep value and that result; nothing after a fatal callback) with a final state agreeing with the outcome; C01_outcome_exclusive: action xor error. The same monitor judges the implementation's traces; the model is tied to the code by exhaustive enumeration of node kinds x budgets x outcome scripts with trace equality.",
+    "level_note": _T + " Nodes with absent phases are covered by trace equality with the model only (the monitor applies to nodes whose three phases are user-visible).",
+    "explanation": "lifecycle monitor proved of every model run; exhaustive script enumeration against the implementation",
+    "assumptions": ["C01 scenarios never cancel the context (C05 does)"],
+}
+PROPS["C02"] = {
+    "parts": [ENGINE],
+    "level_text": "Theorems C02_budget_exact (exactly min(k,N) exec attempts for every oracle, N>=1; on exhaustion the loop's error is the last attempt's), C02_batch_item (same for runExecWithRetries plus: fallback exactly once iff all N failed and the node has its own fallback, with the item and the last error, never after a success), C02_copies_agree, C02_no_retry_iface; the lifecycle monitor (attempt k+1 only after k failures and k<N, fallback only after N failures with the last error) judges the implementation's traces; correspondence: every outcome vector in {ok,fail}^(N+1) for N in 1..5 (quick) / 1..8 (thorough) x fallback kinds x 8 node kinds.",
+    "level_note": _T,
+    "explanation": "counting theorems on the retry loop and its batch copy; exhaustive outcome-vector enumeration against the implementation",
+    "assumptions": ["no cancellation inside C02 scenarios"],
+}
+PROPS["C04"] = {
+    "parts": [ENGINE],
+    "level_text": "Theorem C04_transparent_fail_stop: for every node kind, oracle, nesting depth and fuel, a failed run's error is a framework error, or the context's error with the context cancelled, or matches (same root through every wrap) the error returned by the LAST callback in the log - so nothing ran after the failure at any depth; C04_nil_iff via the lifecycle monitor. spec_C04 (monitor + fail_last_ok) is proved of the model and applied to the implementation; correspondence: a single failure injected at every callback position of the fault-free path of generated nested flows, in 4 error flavours.",
+    "level_note": _T,
+    "explanation": "FailLast proved by induction over fuel and nesting; single-fault injection at every callback of generated flows",
+    "assumptions": ["error text is not modelled: only errors.Is/As classes"],
+}
+PROPS["C05"] = {
+    "parts": [ENGINE],
+    "level_text": "Theorems C05_pre_cancelled (no callback, context error) and C05_no_new_work (after the first cancelling callback no exec attempt and no prep is started, and a run that is cut short ends in the context's error: the monitor refuses CPrep/CExec once cancelled and accepts a truncated visit only with a context-class outcome) for every oracle, table of full user nodes and flows, fuel; spec_C05 proved of the model and applied to the implementation; correspondence: cancellation before the run and from inside every callback of the fault-free path, cancel and deadline contexts (the error must match the context's own error, not merely some context error).",
+    "level_note": _T + " Cancellation arriving during a retry wait is C20.",
+    "explanation": "monitor-based theorem; cancellation injected at every callback of generated flows",
+    "assumptions": ["cancellation is issued from inside callbacks (deterministic); asynchronous cancellation during waits is C20"],
+}
+
 NOT_APPLICABLE = {}
